@@ -43,4 +43,25 @@ def asymmetricFrames : List FrameRow := [
   ("patterns.VirtualMemoryArray", [], ["length_block fmt='I' padding=1"])
 ]
 
+/-- Optional parts: the classes whose READER decides by a test on a stored field that the WRITER does not apply in the same
+words (`C02.optional_part_tests_shared`), each with exactly the tests listed (regenerated table `Generated/C02Guards.lean`:
+atoms of the `if`/`while` tests that guard a read / a write and mention stored fields only).
+* Curves: the reader's `version == 1` chooses whether the extra block follows; the writer asks whether it holds one (`extra`).
+* OuterGlowInfo: `native_color` is read for `version >= 2`; the writer writes it when it is there.
+* ImageResource / MetadataSetting / TypeToolObjectSetting: dispatch on the key / a marker inside the payload; the writer asks the
+  payload object (`hasattr(data, 'write')`), which is no field test.
+* Slices: `version == 6` chooses the reader class; the payload object writes itself.
+* LinkedLayer: `version >= 5 / 6 / 7` on reading; the writer writes `child_id` / `mod_time` / `lock_state` when they are there.
+* Pattern: the colour table is read for INDEXED patterns and written when there is one. -/
+def asymmetricGuards : List (String × List String × List String) := [
+  ("adjustments.Curves", ["is_map", "version == 1"], ["is_map", "extra"]),
+  ("effects_layer.OuterGlowInfo", ["version >= 2"], ["native_color"]),
+  ("image_resources.ImageResource", ["key in TYPES"], []),
+  ("image_resources.Slices", ["version == 6"], []),
+  ("linked_layer.LinkedLayer", ["open_file", "kind == LinkedLayerType.EXTERNAL", "version > 3", "version > 2", "kind == LinkedLayerType.ALIAS", "kind == LinkedLayerType.DATA", "version >= 5", "version >= 6", "version >= 7", "version == 2"], ["open_file", "kind == LinkedLayerType.EXTERNAL", "version > 3", "version > 2", "kind == LinkedLayerType.ALIAS", "kind == LinkedLayerType.DATA", "child_id", "mod_time", "lock_state", "version == 2"]),
+  ("patterns.Pattern", ["image_mode == ColorMode.INDEXED"], ["color_table"]),
+  ("tagged_blocks.MetadataSetting", ["key in (b'mdyn', b'sgrp')", "key in _KNOWN_KEYS"], []),
+  ("tagged_blocks.TypeToolObjectSetting", ["b'EngineData' in text_data"], [])
+]
+
 end PsdVerif.Payload3.ResaveTables
